@@ -102,6 +102,27 @@ def core_call_table(ctx, P):
                 else:
                     mc, segs = agg_msg_class(P, fn, ev, site.args[0])
                 rows.append({"fn": fn, "bb": bb, "sink": name, "tag": tag, "msg": mc, "nf": B.show_nf(segs) if segs is not None else None, "side": "sign" if name in PRODUCERS else "verify"})
+    # one level of indirection: a scheme method that goes through a sibling method of its own trait
+    # (e.g. pop_prove -> sign -> core_sign) inherits that method's sink and tag when the sibling
+    # forwards its message parameter unmodified
+    direct = {}
+    for r in rows:
+        if r["msg"] == ("param", "msg"):
+            direct[(r["fn"].trait_default_of, r["fn"].name)] = r
+    for fn in P.fns.values():
+        owner = fn.trait_default_of
+        if fn.kind == "Closure" or owner not in SCHEME_TRAITS:
+            continue
+        ev = evaluate(fn)
+        for bb, site in sorted(ev.sites.items()):
+            c = site.raw.get("callee") or {}
+            if c.get("trait") == owner and (owner, c.get("name")) in direct and c.get("name") != fn.name:
+                base = direct[(owner, c["name"])]
+                mi = {"sign": 1, "partial_sign": 1, "verify": 2, "partial_verify": 2, "multi_sig_verify": 2}.get(c["name"])
+                if mi is None or mi >= len(site.args):
+                    continue
+                mc, segs = msg_class(P, fn, ev, site.args[mi])
+                rows.append({"fn": fn, "bb": bb, "sink": base["sink"], "tag": base["tag"], "msg": mc, "nf": B.show_nf(segs) if segs is not None else None, "side": base["side"], "via": c["name"]})
     return rows
 
 
@@ -194,10 +215,8 @@ def check_purpose_separation(ctx, P):
             ok = mc[0] == "pk" or weak
             why = "POP tag must be paired with the key's own compressed bytes as message"
         else:
-            ok = mc[0] in ("param", "aug", "map") or weak or (mc[0] == "other" and r["sink"].endswith("aggregate_verify"))
-            why = "signature tag must be paired with the caller's message (pk-prefixed for augmentation)"
-            if mc[0] == "pk":
-                ok = False
+            ok = mc[0] != "pk"
+            why = "a signature-purpose tag must not be paired with exactly the key's own bytes as message (that pairing is the proof-of-possession purpose)"
         ctx.ob(
             "E5.purpose",
             "%s->%s" % (fn.key, r["sink"].split("::")[-1]),
@@ -210,7 +229,70 @@ def check_purpose_separation(ctx, P):
     return rows
 
 
-def check_core_table(ctx, P, traits=None, rule="E3.core"):
+def _canon_nf(r):
+    """Message construction as a string in which the signer's own key and the verifier's key parameter unify."""
+    s = r["nf"] if r["nf"] is not None else str(r["msg"])
+    for a in ("GroupEncoding::to_bytes(&Mul::mul(Group::generator(), Psk))", "GroupEncoding::to_bytes(&BlsSignatureCore::public_key(Psk))", "GroupEncoding::to_bytes(&Ppk)", "GroupEncoding::to_bytes(&P2.0)"):
+        s = s.replace(a, "PKBYTES")
+    return s.replace("P2.1", "Pmsg")
+
+
+def check_core_siblings(ctx, P, traits=None, rule="E3.sibling", methods_sign=("sign", "partial_sign", "pop_prove"), methods_verify=("verify", "partial_verify", "pop_verify", "multi_sig_verify")):
+    """E3 only: for each scheme trait the signing side and the verifying side hand the same
+    (tag, message construction) to the core primitive.  Nothing is compared with a pinned table, so
+    a symmetric re-framing is (correctly) not reported here."""
+    rows = core_call_table(ctx, P)
+    for tr in SCHEME_TRAITS:
+        if traits and tr not in traits:
+            continue
+        sign = {(r["tag"], _canon_nf(r)) for r in rows if r["fn"].trait_default_of == tr and r["side"] == "sign" and r["fn"].name in methods_sign}
+        ver = {(r["tag"], _canon_nf(r)) for r in rows if r["fn"].trait_default_of == tr and r["side"] == "verify" and r["fn"].name in methods_verify}
+        if not sign and not ver:
+            continue
+        ctx.ob(rule, tr, sign == ver and bool(sign), "signing side hashes %s ; verifying side hashes %s" % (sorted(sign), sorted(ver)), sample={"trait": tr, "sign": sorted(map(str, sign)), "verify": sorted(map(str, ver))})
+    return rows
+
+
+def check_core_forwarding(ctx, P, rule="E5.forward", methods=None):
+    """Keys, signatures and pair lists reach the guarded core primitives unmodified (the message framing
+    is not examined here): verify rows pass (pk, sig) parameters through; aggregate rows pass the caller's
+    iterator itself or a 1:1 map over it whose key component is the entry's own key."""
+    rows = core_call_table(ctx, P)
+    n = 0
+    for r in rows:
+        fn = r["fn"]
+        if methods and fn.name not in methods:
+            continue
+        if r["side"] != "verify":
+            continue
+        ev = evaluate(fn)
+        site = ev.sites[r["bb"]]
+        n += 1
+        if r["sink"].endswith("core_aggregate_verify"):
+            mc = r["msg"]
+            ok = (mc[0] == "param") or (mc[0] == "map" and mc[1] == "param" and _pk_elem_ok(mc)) or (mc[0] == "map" and fn.trait_default_of == "BlsSignatureBasic" and _pk_elem_ok(mc))
+            sig = B.peel(strip_sites(site.args[1]))
+            ok = ok and sig.op == "param"
+            ctx.ob(rule, "%s->core_aggregate_verify" % fn.key, ok, "the pair list reaches core_aggregate_verify as the caller's iterator or a 1:1 map keeping each entry's key (%s); signature forwarded unmodified" % (mc,), where=where(fn, r["bb"]))
+        else:
+            a = [B.peel(strip_sites(x)) for x in site.args[:2]]
+            if fn.name == "multi_sig_verify":
+                ok = a[0].op == "call" and B.cname(a[0]) == "BlsSignatureCore::aggregate_public_keys" and B.peel(a[0].a[1][0]).op == "param" and a[1].op == "param"
+            elif r["sink"].endswith("core_signature_share_verify"):
+                ok = all(x.op == "param" for x in a)
+            else:
+                ok = all(x.op == "param" for x in a)
+            ctx.ob(rule, "%s->%s" % (fn.key, r["sink"].split("::")[-1]), ok, "key and signature arguments are the caller's values unmodified: %s" % [show(x, 3) for x in a], where=where(fn, r["bb"]))
+    ctx.floor(rule, "verification-side core calls", n, 8 if not methods else 1)
+    return rows
+
+
+def _pk_elem_ok(mc):
+    # ("map", src, closure-message-class, pk_out): key component is the element's own key
+    return mc[3] in ("P2.0", "*P2.0")
+
+
+def check_core_table(ctx, P, traits=None, rule="E3.core", methods=None, siblings=True):
     """E3+E5: every scheme-trait method routes exactly the pinned (tag, message) to the core
     primitive, and signer/verifier of each scheme agree."""
     rows = core_call_table(ctx, P)
@@ -219,6 +301,8 @@ def check_core_table(ctx, P, traits=None, rule="E3.core"):
         fn = r["fn"]
         tr = fn.trait_default_of
         if traits and tr not in traits:
+            continue
+        if methods and fn.name not in methods:
             continue
         key = (fn.name, r["sink"].split("::")[-1])
         exp = EXPECTED_CORE.get(tr, {}).get(key)
@@ -249,10 +333,14 @@ def check_core_table(ctx, P, traits=None, rule="E3.core"):
         if traits and tr not in traits:
             continue
         for key in table:
+            if methods and key[0] not in methods:
+                continue
             if (tr, key) not in seen:
                 ctx.ob(rule + ".anchor", "%s::%s->%s" % (tr, key[0], key[1]), False, "pinned core call `%s::%s -> %s` not found (missing anchor)" % (tr, key[0], key[1]))
     # sibling agreement per scheme: the set of (tag, normalised message) on the signing side equals the verifying side
     for tr in SCHEME_TRAITS:
+        if not siblings:
+            break
         if traits and tr not in traits:
             continue
         sign = {(r["tag"], _norm_side(r["msg"])) for r in rows if r["fn"].trait_default_of == tr and r["side"] == "sign"}
